@@ -73,7 +73,7 @@ from time import time, sleep
 import multiprocessing as mp
 from functools import partial
 from pickle import PicklingError
-from concurrent.futures import Executor
+from concurrent.futures import Executor, InvalidStateError
 from concurrent.futures._base import LOGGER
 from concurrent.futures.process import BrokenProcessPool as _BPPException
 from multiprocessing.connection import wait
@@ -829,7 +829,12 @@ class _ExecutorManagerThread(threading.Thread):
 
         # Mark pending tasks as failed.
         for work_item in self.pending_work_items.values():
-            work_item.future.set_exception(bpe)
+            try:
+                work_item.future.set_exception(bpe)
+            except InvalidStateError:
+                # set_exception() fails if the future was cancelled by its
+                # owner in the meantime: it is already resolved, ignore it.
+                pass
             # Delete references to object. See issue16284
             del work_item
         self.pending_work_items.clear()
@@ -850,12 +855,18 @@ class _ExecutorManagerThread(threading.Thread):
         if self.executor_flags.kill_workers:
             while self.pending_work_items:
                 _, work_item = self.pending_work_items.popitem()
-                work_item.future.set_exception(
-                    ShutdownExecutorError(
-                        "The Executor was shutdown with `kill_workers=True` "
-                        "before this job could complete."
+                try:
+                    work_item.future.set_exception(
+                        ShutdownExecutorError(
+                            "The Executor was shutdown with "
+                            "`kill_workers=True` before this job could "
+                            "complete."
+                        )
                     )
-                )
+                except InvalidStateError:
+                    # The future was cancelled by its owner in the meantime:
+                    # it is already resolved, ignore it.
+                    pass
                 del work_item
 
             # Kill the remaining worker forcibly to no waste time joining them
